@@ -123,7 +123,9 @@ func checkC12A(c any) *ev.Verdict {
 		if r.NonEmptyWithError {
 			return v.Failf("partial", "an error (%s) was returned together with postings or metadata", r.ErrMsg)
 		}
-		if strings.HasPrefix(r.ErrClass, "Other:") {
+		// a typed error: a value of one of the interpreter's own error types (also one this
+		// harness has never seen), not a bare text
+		if strings.HasPrefix(r.ErrClass, "Other:") && !strings.HasPrefix(strings.TrimPrefix(r.ErrType, "*"), "interpreter.") {
 			return v.Failf("untyped-error", "execution returned an error that is not one of the interpreter's typed errors: %s (%s)", r.ErrType, r.ErrMsg)
 		}
 		ri := hx.RunInternal(text, ec.Vars, doubles.New(mode, hx.Content(ec)), ec.Flags)
